@@ -141,6 +141,42 @@ def bernoulli(S, n, batch, cov="dense"):
     S.prove_eq(cond, np.vectorize(Phi, otypes=[object])(Fs), "Bernoulli conditional p(y=1|f) = Phi(f)")
 
 
+def conditional_params_batched(S, kind, n, b):
+    """likelihood with batch_shape (b,), latent values of shape (b, n) - also with n == b, where a parameter broadcast
+       along the wrong dimension still has a legal shape: element i of the batch uses ITS OWN parameter for all n points"""
+    cls = {"laplace": gpytorch.likelihoods.LaplaceLikelihood, "studentt": gpytorch.likelihoods.StudentTLikelihood,
+           "beta": gpytorch.likelihoods.BetaLikelihood}[kind]
+    lik = cls(batch_shape=torch.Size([b]))
+    declare_params(S, lik, "p_")
+    f = S.randn(b, n)
+    Fs = S.sym_tensor(f, "f")
+    def per_batch(t):
+        a = as_sym_arr(SH.get(t)).reshape(-1)
+        assert a.shape[0] == b, a.shape
+        return a
+    with S.mode():
+        cd = lik(f)
+        if kind == "beta":
+            a_, b_ = cd.concentration1, cd.concentration0
+            sc = per_batch(lik.scale)
+        else:
+            loc, scale = cd.loc, cd.scale
+            noise = per_batch(lik.noise)
+            if kind == "studentt":
+                df = cd.df
+                dfree = per_batch(lik.deg_free)
+    rows = lambda vals: np.array([[vals[i]] * n for i in range(b)], dtype=object)
+    if kind == "beta":
+        mix = np.vectorize(sym_sigmoid, otypes=[object])(Fs)
+        S.prove_eq(a_, mix * rows(sc) + Sym.const(1.0), "batched Beta alpha[i, j] = sigmoid(f[i, j]) * scale[i] + 1")
+        S.prove_eq(b_, (Sym.const(1.0) - mix) * rows(sc) + Sym.const(1.0), "batched Beta beta[i, j] = (1 - sigmoid(f[i, j])) * scale[i] + 1")
+    else:
+        S.prove_eq(loc, Fs, "batched %s loc = f" % kind)
+        S.prove_eq(scale, rows([sym_sqrt(v) for v in noise]), "batched %s scale[i, j] = sqrt(noise[i])" % kind)
+        if kind == "studentt":
+            S.prove_eq(df, rows(dfree), "batched StudentT df[i, j] = deg_free[i]")
+
+
 def conditional_params(S, kind, n):
     f = S.randn(n)
     Fs = S.sym_tensor(f, "f")
@@ -281,6 +317,7 @@ def scenarios(tier, seed):
     add("quadrature", num_locs=24, kmax=1, setting_history=0, via_likelihood=True)
     for k in ("laplace", "studentt", "beta"):
         add("conditional_params", kind=k, n=2)
+        add("conditional_params_batched", kind=k, n=2, b=2)
     add("softmax", n=3, mixing=True)   # n == num_features
     add("softmax", n=2, mixing=True)
     add("softmax", n=2, mixing=False)  # n == num_features == num_classes
